@@ -7,7 +7,10 @@
 // bubble whose fake clock is advanced to generated instants between 2000 and
 // 2037 (around range edges, local midnight and the zone's offset transitions),
 // with the schedule set through the real admin handler (global) and as a
-// per-client schedule, written to YAML and reloaded across restarts.
+// per-client schedule, written to YAML and reloaded across restarts; the id
+// list is also changed through the deprecated list-only handler (POST
+// /control/blocked_services/set), which carries no schedule and must leave the
+// configured one alone.
 //
 // The reference is three lines: convert the instant to the zone with package
 // time (the trusted zone database), take (weekday, hour, minute, second), and
@@ -77,13 +80,16 @@ type Bad struct {
 // Op is one generated operation; it is executed when the simulated clock shows
 // AtMs (Unix milliseconds).
 type Op struct {
-	Kind string `json:"k"` // query put bad_put client_set bad_client bad_yaml restart
+	Kind string `json:"k"` // query put legacy_set bad_set bad_put client_set bad_client bad_yaml restart
 	AtMs int64  `json:"at"`
 	Aim  string `json:"aim,omitempty"` // what the generator aimed the instant at (log only)
 	Who  string `json:"who,omitempty"` // query: global | client
 	Name string `json:"name,omitempty"`
 	S    *Sched `json:"sched,omitempty"`
 	Bad  *Bad   `json:"bad,omitempty"`
+	// IDs is the list of the deprecated list-only API (legacy_set); it may be
+	// empty.
+	IDs []string `json:"ids,omitempty"`
 }
 
 // Scenario is one case.
@@ -426,15 +432,27 @@ func genBadYAML(t *rapid.T) (form, start, end string) {
 func genConfigOp(t *rapid.T, poolNames []string, cur *[2]*Sched) Op {
 	zn := func() string { return rapid.SampledFrom(poolNames).Draw(t, "op_zone") }
 	switch k := rapid.IntRange(0, 99).Draw(t, "config_kind"); {
-	case k < 22:
+	case k < 20:
 		s := genSched(t, zn())
 		cur[0] = &s
 		return Op{Kind: "put", S: &s}
-	case k < 34:
+	case k < 30:
+		// The deprecated list-only API: it carries service ids and nothing else,
+		// so the schedule the generator aims at stays the current one.
+		ids := rapid.SampledFrom([][]string{{"9gag"}, {"4chan"}, {"9gag", "4chan"}, {"4chan", "9gag"}, {}}).Draw(t, "legacy_ids")
+		ns := *cur[0]
+		ns.IDs = ids
+		cur[0] = &ns
+		return Op{Kind: "legacy_set", IDs: ids}
+	case k < 33:
+		return Op{Kind: "bad_set", Bad: &Bad{Form: "broken-list", Raw: rapid.SampledFrom([]string{
+			`{"ids":["9gag"]}`, `["9gag",`, `"9gag"`, `[1,2]`, `{"ids":["4chan"],"schedule":{"time_zone":"UTC"}}`,
+		}).Draw(t, "bad_list")}}
+	case k < 42:
 		s := genSched(t, zn())
 		cur[1] = &s
 		return Op{Kind: "client_set", S: &s}
-	case k < 58:
+	case k < 62:
 		b := &Bad{Zone: zn(), Day: rapid.IntRange(0, 6).Draw(t, "bad_day")}
 		if rapid.IntRange(0, 7).Draw(t, "bad_raw") == 0 {
 			b.Form = "broken-document"
@@ -449,11 +467,11 @@ func genConfigOp(t *rapid.T, poolNames []string, cur *[2]*Sched) Op {
 			b.Form, b.Start, b.End = genBadJSON(t)
 		}
 		return Op{Kind: "bad_put", Bad: b}
-	case k < 66:
+	case k < 70:
 		b := &Bad{Zone: zn(), Day: rapid.IntRange(0, 6).Draw(t, "bad_day")}
 		b.Form, b.Start, b.End = genBadJSON(t)
 		return Op{Kind: "bad_client", Bad: b}
-	case k < 76:
+	case k < 80:
 		b := &Bad{Zone: zn(), Day: rapid.IntRange(0, 6).Draw(t, "bad_day")}
 		b.Form, b.Start, b.End = genBadYAML(t)
 		return Op{Kind: "bad_yaml", Bad: b}
@@ -862,6 +880,18 @@ func (r *runner) readBack(what, class string) error {
 	if !sameIDs(got.IDs, r.glob.s.IDs) {
 		return kernel.Violationf(class, "%s: global ids %v, want %v", what, got.IDs, r.glob.s.IDs)
 	}
+	// The deprecated list-only view of the same configuration.
+	code, body, err = r.n.Mux.Do("GET", "/control/blocked_services/list", nil)
+	if err != nil {
+		if hp, ok := err.(*env.HandlerPanic); ok {
+			return kernel.Violationf("api-panic", "%v", hp)
+		}
+		return err
+	}
+	var list []string
+	if code != http.StatusOK || json.Unmarshal(body, &list) != nil || !sameIDs(list, r.glob.s.IDs) {
+		return kernel.Violationf(class, "%s: GET blocked_services/list -> %d %s, want ids %v", what, code, body, r.glob.s.IDs)
+	}
 	// The client's schedule, serialised the way GET /control/clients does
 	// (clientJSON.Schedule is the *schedule.Weekly itself).
 	p, ok := r.n.Clients.FindByName(clientName)
@@ -1069,6 +1099,53 @@ func (r *runner) apply(i int, op Op) error {
 		c.Fault("live_schedule_change")
 		c.Probe("put_ok")
 		return r.readBack(fmt.Sprintf("op %d after PUT", i), "json-roundtrip-changed")
+	case "legacy_set":
+		// The deprecated POST /control/blocked_services/set carries a list of
+		// service ids and no schedule: the ids change, the configured pause
+		// schedule stays what it is.
+		ids := op.IDs
+		if ids == nil {
+			ids = []string{}
+		}
+		body, _ := json.Marshal(ids)
+		code, resp, err := r.n.Mux.Do("POST", "/control/blocked_services/set", body)
+		if err != nil {
+			if hp, ok := err.(*env.HandlerPanic); ok {
+				return kernel.Violationf("api-panic", "%v", hp)
+			}
+			return err
+		}
+		c.Eventf("legacy_set %s -> %d", body, code)
+		if code != http.StatusOK {
+			return kernel.Violationf("valid-list-rejected", "op %d: POST blocked_services/set %s -> %d %s", i, body, code, resp)
+		}
+		r.glob.s.IDs = ids
+		r.modified = int(r.n.Modified.Load())
+		c.Fault("legacy_list_change")
+		c.Probe("legacy_set_ok")
+		if r.glob.s.Week != ([7]Day{}) {
+			c.Probe("legacy_set_over_schedule")
+		}
+		return r.readBack(fmt.Sprintf("op %d after legacy POST set (ids only)", i), "legacy-set-changed-schedule")
+	case "bad_set":
+		body := op.Bad.Raw
+		code, resp, err := r.n.Mux.Do("POST", "/control/blocked_services/set", []byte(body))
+		if err != nil {
+			if hp, ok := err.(*env.HandlerPanic); ok {
+				return kernel.Violationf("api-panic", "%v on %s", hp, body)
+			}
+			return err
+		}
+		c.Eventf("bad_set %s -> %d", body, code)
+		c.Fault("invalid_schedule_submitted")
+		if code < 400 || code > 499 {
+			return kernel.Violationf("broken-document-accepted", "op %d: POST blocked_services/set %s (not a list of ids) -> %d %s", i, body, code, resp)
+		}
+		if int(r.n.Modified.Load()) != r.modified {
+			return kernel.Violationf("rejected-but-changed", "op %d: rejected POST set %s marked the configuration as modified", i, body)
+		}
+		c.Probe("bad_set_rejected")
+		return r.readBack(fmt.Sprintf("op %d after rejected POST set", i), "rejected-but-changed")
 	case "client_set":
 		// What POST /control/clients/update does with the schedule: decode the
 		// clientJSON, clone the schedule into a new Persistent, Storage.Update.
@@ -1300,7 +1377,7 @@ func Run(t *testing.T, scAny any, c *kernel.Ctx) error {
 var Prop = &kernel.Property{
 	ID:    "C18",
 	Level: "exploration",
-	Rule: "seeded cases (rapid): 1-2 zones drawn from every TZif file under /usr/share/zoneinfo found at run time (60% from a list of zones with midnight / 30-minute / 2-hour transitions and 30/45-minute offsets), a global and a per-client weekly schedule with whole-minute ranges (empty, full day, from 00:00, until 24:00, small hours, late evening, quarter hours), 5-30 (thorough: -50) strictly increasing instants between 2000 and 2037 on 2-8 anchor days (70% days of an offset transition of the zone, found by scanning offsets with package time) aimed at range edges, local midnight and the transition instant with offsets of 0, 1 ms, 1 s, 1 min, 30 min, 1 h; at each instant a query for a blocked-service domain from the global or the client address; between them valid PUTs, client updates, invalid JSON/YAML schedules (negative, inverted, beyond 24h, not whole minutes, broken documents) and restarts through YAML; " +
+	Rule: "seeded cases (rapid): 1-2 zones drawn from every TZif file under /usr/share/zoneinfo found at run time (60% from a list of zones with midnight / 30-minute / 2-hour transitions and 30/45-minute offsets), a global and a per-client weekly schedule with whole-minute ranges (empty, full day, from 00:00, until 24:00, small hours, late evening, quarter hours), 5-30 (thorough: -50) strictly increasing instants between 2000 and 2037 on 2-8 anchor days (70% days of an offset transition of the zone, found by scanning offsets with package time) aimed at range edges, local midnight and the transition instant with offsets of 0, 1 ms, 1 s, 1 min, 30 min, 1 h; at each instant a query for a blocked-service domain from the global or the client address; between them valid PUTs, sets of the id list through the deprecated list-only POST /control/blocked_services/set (which must leave the schedule alone; read back through GET get and GET list), client updates, invalid JSON/YAML schedules (negative, inverted, beyond 24h, not whole minutes, broken documents) and restarts through YAML; " +
 		"non-trivial = the case executed at least one query the reference says must be blocked and one it says must be passed because of the pause, and the clock was advanced or jumped at least once; distinct = distinct scenario digests",
 	Gen: Gen,
 	New: func() any { return &Scenario{} },
@@ -1316,8 +1393,8 @@ var Prop = &kernel.Property{
 		"a range with start == end != 0 is not generated (the statement does not say whether it is inverted)",
 		"the posix/ and right/ copies of the zone database are not used",
 	},
-	FaultKinds: []string{"clock_advance", "clock_jump_while_down", "restart", "live_schedule_change", "invalid_schedule_submitted"},
+	FaultKinds: []string{"clock_advance", "clock_jump_while_down", "restart", "live_schedule_change", "legacy_list_change", "invalid_schedule_submitted"},
 	ProbeNames: []string{"paused_query", "blocked_query", "unrelated_name_query", "dst_day_query", "short_day_query", "long_day_query", "day_without_midnight_query", "query_after_transition_same_day",
 		"fractional_hour_offset_query", "query_within_1s_of_edge", "empty_range_query", "full_day_range_query", "client_schedule_query",
-		"put_ok", "client_set_ok", "bad_put_rejected", "bad_client_rejected", "bad_yaml_rejected", "yaml_written_ok", "json_readback_ok"},
+		"put_ok", "legacy_set_ok", "legacy_set_over_schedule", "bad_set_rejected", "client_set_ok", "bad_put_rejected", "bad_client_rejected", "bad_yaml_rejected", "yaml_written_ok", "json_readback_ok"},
 }
